@@ -60,12 +60,25 @@ def _holds(conds, env, memo):
     return all(bool(v) for v in vals)
 
 
+def _holds_hp(conds, env):
+    """the same in 60-digit arithmetic: a sampled point that satisfies a comparison only through float rounding (a residual
+    that is exactly 0 in R evaluating to -1e-17) is not a witness"""
+    try:
+        return all(bool(v) for v in T.evalmp(list(conds), env))
+    except Exception:  # noqa: BLE001
+        return False
+
+
 def seeded_refute(pairs, path, defined, witness, n_points=24, seed=0):
     roots = [x for p in pairs for x in p] + list(path) + list(defined)
     vars_ = T.variables(roots)
     rnd = random.Random(seed)
     tried = 0
-    for k in range(n_points):
+    # generic dyadic points first; the path's own witness (k = 0) last: it may be a solver-chosen boundary point where the
+    # real code is legitimately inaccurate in floating point
+    for k in list(range(1, n_points)) + [0]:
+        if k == 0 and tried >= 4:
+            break
         env = _sample_point(vars_, witness, rnd, k)
         if env is None:
             continue
@@ -74,6 +87,8 @@ def seeded_refute(pairs, path, defined, witness, n_points=24, seed=0):
             if not _holds(list(path) + list(defined), env, memo):
                 continue
         except KeyError:
+            continue
+        if k > 0 and not _holds_hp(list(path) + list(defined), env):
             continue
         tried += 1
         ls = T.evalf([a for a, _ in pairs], env, memo)
@@ -378,14 +393,18 @@ def feasible(conds, witness, timeout_s=10.0, seed=0, n_points=200):
         if env is None:
             continue
         try:
-            if _holds(conds, env, {}):
+            if _holds(conds, env, {}) and _holds_hp(conds, env):
                 full = dict(witness)
                 full.update(env)
                 return "sat", full, "SEEDED"
         except KeyError:
             break
     try:
-        r, menv, _ = z3_check(conds, [], timeout_s * 1000, box=64, seed=seed)
+        # prefer a well-conditioned witness: positive-declared variables bounded away from zero
+        margin = [T.mk("le", (Fraction(1, 64), v), T.B) for v in vars_ if v.op == "var" and v.id in T._POS]
+        r, menv, _ = z3_check(list(conds) + margin, [], timeout_s * 1000, box=64, seed=seed) if margin else ("unknown", None, 0)
+        if r != "sat":
+            r, menv, _ = z3_check(conds, [], timeout_s * 1000, box=64, seed=seed)
     except T.UnsupportedTerm:
         return "unknown", None, "-"
     if r == "sat":
